@@ -6,6 +6,7 @@ mod gen;
 mod c01;
 mod c10;
 mod c18;
+mod c05;
 
 fn main() {
     let args: Vec<String> = std::env::args().collect();
@@ -20,6 +21,7 @@ fn main() {
         "C18" => c18::run(&mut sink, thorough, seed),
         "C01" | "C02" | "C09" | "C11" | "C14" | "C19" => c01::run(&mut sink, prop, thorough, seed),
         "C10" => c10::run(&mut sink, thorough, seed),
+        "C05" => c05::run(&mut sink, thorough, seed),
         "replay" => { /* replay lines are `op args…` on stdin */
             let mut s = String::new();
             use std::io::Read;
@@ -42,6 +44,7 @@ fn replay(sink: &mut common::Sink, toks: &[&str]) {
         "ptr" | "ptrmut" | "pidx" => c18::replay(sink, toks),
         "pv" | "pi" => c01::replay(sink, toks),
         "pfx" => c10::replay(sink, toks),
+        "esc" | "escbufs" | "hex4" | "hex4s" | "scan" => c05::replay(sink, toks),
         _ => eprintln!("cannot replay op {}", toks[0]),
     }
 }
